@@ -1713,6 +1713,7 @@ public:
     offset -= amount;
   }
   void setOffset(int value) { offset = value; }
+  void setSize(size_t value) { size = value; }
   size_t getOffset() { return offset; }
   const std::string &getExitLabel() const { return exitLabel; }
 };
@@ -2640,13 +2641,28 @@ public:
     }
   }
 
+  /// Generate the actual parameters of a call and allocate its outgoing area
+  /// (link, return value and parameter locations, at the low end of the frame)
+  /// below the deepest temporary used while generating them: an actual is
+  /// stored to its parameter location as soon as it has been generated, so
+  /// the temporaries of the actuals that follow must not reach that location.
+  void genActuals(const std::vector<std::unique_ptr<Expr>> &args, size_t parameterOffset,
+                  const std::string &currentScope) {
+    size_t frameSize = currentFrame->getSize();
+    currentFrame->setSize(currentFrame->getOffset());
+    genCallActuals(args, currentScope);
+    loadActuals(args, parameterOffset, currentScope);
+    size_t deepestOffset = currentFrame->getSize();
+    currentFrame->setSize(std::max(frameSize, deepestOffset));
+    currentFrame->setOffset(deepestOffset);
+    currentFrame->incOffset(args.size() + parameterOffset);
+  }
+
   void genSysCall(int syscallId, const std::vector<std::unique_ptr<Expr>> &args,
                   const std::string &currentScope) {
     auto stackOffset = currentFrame->getOffset();
     // Actual parameters.
-    genCallActuals(args, currentScope);
-    loadActuals(args, FB_PARAM_OFFSET_FUNC, currentScope);
-    currentFrame->incOffset(args.size() + FB_PARAM_OFFSET_FUNC);
+    genActuals(args, FB_PARAM_OFFSET_FUNC, currentScope);
     // Perform syscall.
     genLDAC(syscallId);
     genOPR(hexasm::Token::SVC);
@@ -2660,9 +2676,7 @@ public:
                    const std::string &currentScope) {
     auto stackOffset = currentFrame->getOffset();
     // Actual parameters.
-    genCallActuals(args, currentScope);
-    loadActuals(args, FB_PARAM_OFFSET_FUNC, currentScope);
-    currentFrame->incOffset(args.size() + FB_PARAM_OFFSET_FUNC);
+    genActuals(args, FB_PARAM_OFFSET_FUNC, currentScope);
     // Branch and link.
     auto linkLabel = getLabel();
     genLDAP(linkLabel);
@@ -2678,9 +2692,7 @@ public:
                    const std::string &currentScope) {
     auto stackOffset = currentFrame->getOffset();
     // Actual parameters.
-    genCallActuals(args, currentScope);
-    loadActuals(args, FB_PARAM_OFFSET_PROC, currentScope);
-    currentFrame->incOffset(args.size() + FB_PARAM_OFFSET_PROC);
+    genActuals(args, FB_PARAM_OFFSET_PROC, currentScope);
     // Branch and link.
     auto linkLabel = getLabel();
     genLDAP(linkLabel);
